@@ -23,7 +23,7 @@ Quick == Tier = "quick"
 \* building blocks of driver scenarios
 Life == 60
 Ans0 == [mode |-> "honest", id |-> "good", variant |-> 0, expiresIn |-> Life, rt |-> TRUE, rotate |-> FALSE, omitId |-> FALSE,
-         omitAt |-> FALSE, tt |-> "Bearer", audArray |-> FALSE, extra |-> FALSE, idLife |-> Life, rfNonce |-> "same", keySet |-> ""]
+         omitAt |-> FALSE, tt |-> "Bearer", audArray |-> FALSE, extra |-> FALSE, big |-> FALSE, idLife |-> Life, rfNonce |-> "same", keySet |-> ""]
 NoExp(a) == [x \in (DOMAIN a) \ {"expiresIn"} |-> a[x]]
 
 Flt(name, fwd, store) == [name |-> name, store |-> store, accessFwd |-> fwd, logout |-> TRUE, prefix |-> "", abs |-> 0, idle |-> 0,
@@ -75,7 +75,7 @@ C02Scn(p) ==
 (* C03: compliant provider answer shapes x configurations x originally requested URLs *)
 URLs == 0..9
 C03Core == [expiresIn : BOOLEAN, rt : BOOLEAN, fwd : BOOLEAN, store : {"memory", "redis"}]
-C03Alt  == {"none", "audArray", "bearerLower", "bearerUpper", "extra", "prefix", "noLogout", "scopes", "discovery", "rules"}
+C03Alt  == {"none", "audArray", "bearerLower", "bearerUpper", "extra", "big", "prefix", "noLogout", "scopes", "discovery", "rules"}
 C03Space == IF Quick
             THEN [core : C03Core, alt : {"none"}, url : URLs] \cup [core : C03Core, alt : C03Alt, url : {1}]
             ELSE [core : C03Core, alt : C03Alt, url : URLs]
@@ -84,7 +84,8 @@ C03Scn(p) ==
   LET a0 == [Ans0 EXCEPT !.rt = p.core.rt,
                          !.audArray = (p.alt = "audArray"),
                          !.tt = (IF p.alt = "bearerLower" THEN "bearer" ELSE IF p.alt = "bearerUpper" THEN "BEARER" ELSE "Bearer"),
-                         !.extra = (p.alt = "extra")]
+                         !.extra = (p.alt = "extra"),
+                         !.big = (p.alt = "big")]      \* a large answer: an ID token with hundreds of group claims, a long extra member
       a  == IF p.core.expiresIn THEN a0 ELSE NoExp(a0)
       f0 == Flt("f1", p.core.fwd, p.core.store)
       f  == [f0 EXCEPT !.prefix = (IF p.alt = "prefix" THEN "my-app.1" ELSE ""),
